@@ -168,9 +168,14 @@ func (muxerSlice) Gen(r *rand.Rand, _ int, tier string) ([]string, []string) {
 	default:
 		baseSec = float64(r.Intn(100))
 	}
+	exactMinus10 := r.Intn(12) == 0 // boundary of the fMP4 offset: the first unit at exactly -10 s (shifted DTS 0) must be kept
+	if exactMinus10 {
+		baseSec = -10
+		tags = append(tags, "start-at-minus-10s")
+	}
 	for _, t := range tracks {
 		t.nextPTS = int64(baseSec * float64(t.rate))
-		if r.Intn(3) == 0 {
+		if r.Intn(3) == 0 && !exactMinus10 {
 			t.nextPTS += int64(r.Intn(t.rate/2+1)) - int64(t.rate/4) // tracks start at slightly different instants
 		}
 	}
@@ -232,7 +237,7 @@ func (muxerSlice) Gen(r *rand.Rand, _ int, tier string) ([]string, []string) {
 		var op string
 		if isVideoCodec(t.codec) {
 			ra := t.count%t.gop == 0
-			if midGOP && t.count < 1+t.gop/2 && !t.started {
+			if midGOP && t.count < 1+t.gop/2 && !t.started && !exactMinus10 {
 				ra = false
 			}
 			if r.Intn(15) == 0 {
